@@ -343,7 +343,8 @@ ConvergedIf(guard) ==
         (/\ env.cache[k] # None /\ env.cache[k].dyn /\ env.cache[k].origin = "load"
          /\ AssetD(k) \in DOMAIN graph /\ graph[AssetD(k)].typ /\ k \notin env.stale /\ k \notin env.taint
          /\ \A e \in FileDepsOf(AssetD(k), {}) : e \in Entries => ~Pending(e))
-        => LET f == Fresh(env, k, Scripts) IN f.ok => env.cache[k].val = f.val
+        \* reads made inside no_record are not followed by design: compared without them
+        => LET f == Fresh(env, k, Scripts) IN f.ok => StripV(env.cache[k].val) = StripV(f.val)
 
 Converged == ConvergedIf(~d8 /\ ~od)
 (* negative control: without the d8 guard the as-built order violates convergence (D8) *)
